@@ -468,6 +468,14 @@ impl Ledger {
         }
     }
 
+    /// Connected ports (state Open) still active at endpoint `ep`.
+    pub fn open_ports(&self, ep: usize) -> Vec<u32> {
+        let mut v: Vec<u32> =
+            self.active[ep].iter().filter(|(_, i)| self.recs[**i].state == RecState::Open).map(|(n, _)| *n).collect();
+        v.sort_unstable();
+        v
+    }
+
     /// Ports still active at endpoint `ep` (numbers).
     pub fn active_ports(&self, ep: usize) -> Vec<u32> {
         let mut v: Vec<u32> = self.active[ep].keys().copied().collect();
